@@ -1,5 +1,6 @@
 """C05 - every Khovanov complex is a graded chain complex over any ring (table clauses only; d.d = 0 NOT decided)."""
 import e9_relations, e8_formulas, e1_typestate, specs
+import e33_scans
 
 LEVEL = 'other'
 EXPLANATION = ('The differential of the Khovanov complex is assembled from cobordisms rewritten by CobComp::part_eval. Read from the MIR '
@@ -14,6 +15,8 @@ TRUSTED = ['rustc MIR', 'the Frobenius algebra and degrees named in the property
 
 def run(ctx, rep):
     facts = ctx.facts()
+    rep.rule('E33', e33_scans.__doc__.strip().split('\n')[0])
+    e33_scans.run_for(facts, rep, 'Bar-Natan category', ['yui_kh::kh::internal', 'LcCobTrait'], 12)
     import fixtures
     fixtures.run_controls(rep, ['E1'], lambda: ctx.reload())
     rep.rule('E9', e9_relations.__doc__.strip().split('\n')[0])
